@@ -54,6 +54,12 @@ def masks_summary(I, fi, args, kwargs, node):
     by MASK.literal; here four opaque integers per conditional."""
     o = I.deref(args[0])
     k = o.attrs["index"].value
+    # (named after the conditional itself, not after the number it carries: another conditional filed under a number that was
+    #  in use before has a mask of its own)
+    af = o.attrs.get("antecedence")
+    for k_ in (1, 2, 3):
+        if isinstance(af, FormulaV) and af.f == A(X(k_)):
+            k = k_
     I.log("masks", node, cond=k, sig=args[1])
     if I.ctx.decide(("masknone", k)):
         return Const(None)
@@ -434,9 +440,6 @@ def model_sequences(rep, ex: Explorer, nworlds=2, only=None):
             if p.outcome[0] != "return":
                 bad = bad or (f"outcome {p.outcome[0]} {p.outcome[1]!r}"[:160], "return", {})
                 continue
-            if 3 in final and any(k_[0] == "masknone" and v_ is False for k_, v_ in p.decisions):
-                continue  # (the literal fast path names its tests by the conditional's number: the old and the new number 2
-                #            cannot be told apart there; this sequence is judged on the solver path)
             masked, envs = _path_envs(p, worlds, (1, 2, 3) if 3 in final else (1, 2))
             rv = p.outcome[1]
             if not (isinstance(rv, TupleV) and len(rv.items) == 2):
